@@ -345,3 +345,58 @@ def externalize(ops, kind, rng, extras=True, permute=True, h5name='data.h5'):
     if kind == 'h5':
         return ops, {'kind': 'h5', 'file': h5name, 'datasets': [['/' + dn.lstrip('/'), rc] for dn, rc in items]}
     raise ValueError(kind)
+
+
+def toposhuffle(rng, ops, keep_first=2, strength=1.0):
+    """Random permutation of ops that respects handle dependencies (an op comes after the ops creating handles it uses).
+    nf_data ops keep their relative order (payload order is observable)."""
+    from . import values
+    made_by = {}
+    for i, op in enumerate(ops):
+        if op.get('op') == 'add':
+            made_by[op['h']] = i
+        elif op.get('op') == 'add_lf':
+            made_by['lf:' + op['lf']] = i
+        elif op.get('op') == 'new_file':
+            made_by['file:' + op['fid']] = i
+    deps = []
+    last_nf = None
+    last_set = {}
+    for i, op in enumerate(ops):
+        d = set()
+        if op.get('op') == 'add_lf':
+            d.add(made_by.get('file:' + op['fid']))
+        if op.get('op') in ('add', 'nf_data'):
+            d.add(made_by.get('lf:' + op['lf']))
+        for h in values.refs_in(op.get('kwargs')) + values.refs_in(op.get('nf')) + values.refs_in(op.get('v')):
+            d.add(made_by.get(h))
+        if op.get('op') in ('set', 'set_prop'):
+            d.add(made_by.get(op['h']))
+            if op['h'] in last_set:
+                d.add(last_set[op['h']])
+            last_set[op['h']] = i
+        if op.get('op') == 'nf_data':
+            if last_nf is not None:
+                d.add(last_nf)
+            last_nf = i
+        if op.get('op') == 'add' and op.get('kind') == 'channel':
+            # dataset names are derived from the channels already present: keep channel order within a logical file
+            key = ('ch', op['lf'])
+            if key in last_set:
+                d.add(last_set[key])
+            last_set[key] = i
+        d.discard(None)
+        d.discard(i)
+        deps.append(d)
+    done, out = set(), []
+    remaining = list(range(len(ops)))
+    while remaining:
+        ready = [i for i in remaining if deps[i] <= done]
+        if rng.random() < strength:
+            i = ready[rng.randrange(len(ready))]
+        else:
+            i = ready[0]
+        out.append(ops[i])
+        done.add(i)
+        remaining.remove(i)
+    return out
